@@ -147,6 +147,7 @@ pub fn run(name: &str, a: &[u64]) -> Vec<u64> {
         "k_fma" => crate::kern::k_fma(a),
         "k_fmabin" => crate::kern::k_fmabin(a),
         "k_unpack" => crate::kern::k_unpack(a),
+        "kg" => crate::kern::kg(a),
         "slab_replay" => crate::codec::slab_replay(a),
         _ => panic!("unknown case function {}", name),
     }
